@@ -134,6 +134,29 @@ func (c *c17Oracle) Check(w *World, o *Obs) []Violation {
 			}
 		}
 	}
+	// the session and cookie stores (Config.Storage.SessionState / CookieState)
+	// are storage too; what the user types - passwords, one-time passwords,
+	// recovery codes - has no business in them
+	if o.IsHTTP {
+		for _, jar := range []struct {
+			name string
+			m    map[string]string
+		}{{"session", o.SessAfter}, {"cookie", o.CookAfter}} {
+			for _, k := range sortedKeys(jar.m) {
+				if strings.HasPrefix(k, "app_") || k == "guid" {
+					continue
+				}
+				for _, sec := range keys {
+					kind := secrets[sec]
+					if (kind == "password" || kind == "otp" || kind == "recovery") && len(sec) >= 8 && strings.Contains(jar.m[k], sec) {
+						out = append(out, viol("C17", "plaintext_in_client_state", jar.name, o,
+							fmt.Sprintf("%s value %q holds a %s in plaintext", jar.name, k, kind), "kind", kind))
+					}
+				}
+			}
+		}
+		w.Stats.Reach["c17_client_state_scanned"]++
+	}
 	// log stream
 	for _, line := range o.Logs {
 		for _, sec := range keys {
@@ -296,6 +319,24 @@ func (c *c19Oracle) Check(w *World, o *Obs) []Violation {
 	if len(added) == 0 && loggedIn && !dup {
 		if ck := o.presented("cookie"); ck == nil {
 			out = append(out, viol("C19", "logged_in_without_account", "register", o, fmt.Sprintf("registration created nothing yet put uid %q", uid)))
+		}
+	}
+	// the default validation of the page includes the confirmation field: a
+	// non-empty password whose confirmation is absent, empty or different
+	// fails validation, so nothing is created
+	if cf, has := st.Fields["confirm_password"]; pw != "" && (!has || cf != pw) && !faulted {
+		how := "different"
+		switch {
+		case !has:
+			how = "absent"
+		case cf == "":
+			how = "empty"
+		}
+		if len(added) > 0 {
+			out = append(out, viol("C19", "created_despite_confirmation_mismatch", "register", o,
+				fmt.Sprintf("an account was created although the password confirmation was %s", how), "how", how))
+		} else {
+			w.Stats.Reach["c19_confirmation_mismatch_rejected_"+how]++
 		}
 	}
 	// policy clause: with a well-formed identifier and a matching confirmation
